@@ -16,6 +16,9 @@ pub enum Initial {
     Empty,
     /// an existing one-key keyring written by the reference
     OneKey { trailing_newline: bool, comments: bool, crlf: bool },
+    /// a one-key keyring whose comment contains a Latin-1 byte (not UTF-8): kestrel cannot *load* it,
+    /// but generating into it must still only append
+    Latin1Comment,
     /// an existing keyring larger than any I/O buffer: one key followed by a comment block of this many bytes
     Big { comment_bytes: usize },
 }
@@ -95,7 +98,9 @@ impl Family for B3 {
             3 => Initial::OneKey { trailing_newline: false, comments: false, crlf: false },
             4 => Initial::OneKey { trailing_newline: true, comments: true, crlf: false },
             _ => {
-                if rng.chance(1, 3) {
+                if rng.chance(1, 5) {
+                    Initial::Latin1Comment
+                } else if rng.chance(1, 3) {
                     Initial::Big { comment_bytes: *rng.pick(&[7000usize, 8192, 9000, 20000, 70000]) }
                 } else {
                     Initial::OneKey { trailing_newline: rng.chance(1, 2), comments: rng.chance(1, 2), crlf: rng.chance(1, 3) }
@@ -122,6 +127,7 @@ impl Family for B3 {
         let init_name = "initial-key-000";
         let init_pw = "initial pw";
         let mut known: Vec<(String, String)> = vec![]; // (name, password) of every key that must be in F
+        let mut latin1 = false;
         match &s.initial {
             Initial::Absent => {}
             Initial::Empty => sb.write(f, b""),
@@ -140,6 +146,13 @@ impl Family for B3 {
                 }
                 sb.write(f, t.as_bytes());
                 known.push((init_name.into(), init_pw.into()));
+            }
+            Initial::Latin1Comment => {
+                let t = keyring_text(&[KeySpec { name: init_name.into(), sk: init_sk, password: Some(init_pw.into()), salt: r.arr32() }]);
+                let mut b = b"# caf\xe9 keys\n".to_vec();
+                b.extend_from_slice(t.as_bytes());
+                sb.write(f, &b);
+                latin1 = true;
             }
             Initial::Big { comment_bytes } => {
                 let mut t = keyring_text(&[KeySpec { name: init_name.into(), sk: init_sk, password: Some(init_pw.into()), salt: r.arr32() }]);
@@ -161,7 +174,7 @@ impl Family for B3 {
             inv.stdin = Stdin::Pipe(format!("{}\n", g.name).into_bytes());
             inv.entropy_seed = if s.os_rng { None } else { Some(s.seed ^ (k as u64 + 1) * 0x9E37) };
             if let Some((kth, errno, cap)) = g.fault {
-                let mut plan = format!("f={}:w:{}:E{}", f, kth, errno);
+                let mut plan = if errno == 27 { format!("f={}:r:{}:E5", f, kth) } else { format!("f={}:w:{}:E{}", f, kth, errno) };
                 if cap > 0 {
                     plan.push_str(&format!(";f={}:w:*:C{}", f, cap));
                 }
@@ -213,6 +226,9 @@ impl Family for B3 {
             if after.len() <= before_b.len() {
                 out.violations.push(viol("C14", "nothing_added", format!("{}: file did not grow", step)));
             }
+            if latin1 {
+                continue; // not loadable as a keyring by design of this initial state: prefix preservation only
+            }
             // 2. parses as a keyring; every key generated so far is present
             let text = String::from_utf8_lossy(&after).to_string();
             match rk::parse(&text) {
@@ -242,7 +258,9 @@ impl Family for B3 {
         }
         // 3. every key is usable with its own password (reference unlock = private key matches its public key)
         let final_text = sb.read(f).map(|b| String::from_utf8_lossy(&b).to_string()).unwrap_or_default();
-        if let Some(entries) = rk::parse(&final_text) {
+        if latin1 {
+            // nothing more to check
+        } else if let Some(entries) = rk::parse(&final_text) {
             for (name, pw) in &known {
                 if let Some(e) = entries.iter().find(|e| e.name == *name) {
                     let sk = e.private.as_ref().and_then(|p| rk::unlock_with(p, &mut |salt| crate::ops::ref_scrypt_cached(pw.as_bytes(), salt)));
